@@ -93,7 +93,7 @@ theorem fields_phys (ext : Ext) (un : Bytes → String) (fields : SFields) (hloo
   exact hloop fs s1 s2 _ sfs hm1 (by rw [hf1]; exact hsl) hp j f found hj hc
 
 /-- the value of a tuple variant is a positional presentation at the variant's type -/
-theorem interpDT_tupleVariant_inv (ext : Ext) (ufs : UFields) (mode : UnionMode) (n : Bool) (md : Metadata) (a : String)
+theorem interpDT_tupleVariant_seq (ext : Ext) (ufs : UFields) (mode : UnionMode) (n : Bool) (md : Metadata) (a : String)
     (i : Nat) (vn : String) (xs : SVals) (tid : Int) (nm : String) (cdt : DataType) (cn : Bool) (cmd : Metadata)
     (lv : LVal) (hufs : ufs.toList[i]? = some (tid, .mk nm cdt cn cmd))
     (h : interpDT ext (.union ufs mode) n md (.tupleVariant a i vn xs) = .ok lv) :
@@ -325,7 +325,7 @@ theorem push_phys (ext : Ext) (un : Bytes → String) (hun : ∀ s, un (strBytes
       obtain ⟨⟨c0, t0, o0, cur0⟩, hsv, hrest⟩ := (bind_ok _ _ _).1 h
       obtain ⟨m0, _, hget0, _⟩ := serializeVariant_ok hsv
       obtain ⟨hwc, hsc, fname, fdt, fn, fmd, hufs, hshc⟩ := union_child hwf hs hsu hget0
-      have hi' := interpDT_tupleVariant_inv ext ufs mode n md _ i _ xs _ fname fdt fn fmd lv hufs hi
+      have hi' := interpDT_tupleVariant_seq ext ufs mode n md _ i _ xs _ fname fdt fn fmd lv hufs hi
       obtain ⟨lvc, hsp, rfl⟩ := hi'
       refine union_row_phys (pc := fun c => ctx c.ann (seqLikeWith (fun large el offs => pushElems ext large el offs xs)
         (fun el c => pushCountElems ext el c xs) (fun s => pushTupleElems ext s xs) (u8All xs) c .tupleStruct)) rfl h ?_
